@@ -185,7 +185,12 @@ pub fn check_cancel(sc: &Scenario, tr: &Trace) -> Result<&'static str, Fail> {
             let limit = if *e == peer { t_heard.max(t_cancel) + 2 } else { t_cancel + 2 };
             tr.inds_of(*e, id).iter().any(|r| r.t <= limit && matches!(&r.ind, Indication::Fault(_) | Indication::Abandon(_)))
         });
-        if !finished_before && !delivered && !fault_before && peer_can_hear && peer_started && lossless {
+        // the link may also reorder: a PDU sent before the cancel that is delivered after the cancel notice can start a second
+        // transaction at the peer (the first one is gone), whose own outcome then travels back - not the cancel's doing
+        let overtaken = tr.dgrams.iter().any(|d| {
+            d.from == who && d.to == peer && !d.injected && d.t <= t_cancel + 2 * sc.tau_ms + 2 && matches!(&d.fate, Fate::Delivered(v) if v.iter().any(|t| *t > t_heard))
+        }) && t_heard > t_cancel;
+        if !finished_before && !delivered && !fault_before && peer_can_hear && peer_started && lossless && !overtaken {
             if !saw_cancel(tr, who, id) {
                 return Err(fail(tr, "cancel-not-reported:canceller", format!("the user at entity {who} who cancelled never saw the CancelReceived condition")));
             }
